@@ -95,6 +95,121 @@ def py_equal(app, ty, kind, got):
     return True
 
 
+def _lenenc(p, i):
+    b = p[i]
+    if b < 251:
+        return b, i + 1
+    if b == 0xFC:
+        return int.from_bytes(p[i + 1:i + 3], "little"), i + 3
+    if b == 0xFD:
+        return int.from_bytes(p[i + 1:i + 4], "little"), i + 4
+    return int.from_bytes(p[i + 1:i + 9], "little"), i + 9
+
+
+def strict_rows(raw, binary):
+    """decode one result-set response strictly; returns list of rows of bytes/None, or raises ValueError"""
+    pk = cl.split_raw(raw)
+    seqs = [q for q, _ in pk]
+    if seqs != [(1 + i) % 256 for i in range(len(pk))]:
+        raise ValueError(f"sequence ids {seqs[:8]}...")
+    ncols, i = _lenenc(pk[0][1], 0)
+    if i != len(pk[0][1]) or ncols == 0:
+        raise ValueError(f"first packet is not a column count: {pk[0][1][:12].hex()}")
+    pos = 1
+    for _ in range(ncols):
+        if pk[pos][1][:4] != b"\x03def":
+            raise ValueError(f"packet {pos} is not a column definition: {pk[pos][1][:12].hex()}")
+        pos += 1
+    if not (pk[pos][1][:1] == b"\xfe" and len(pk[pos][1]) < 9):
+        raise ValueError("no EOF after the column definitions")
+    pos += 1
+    rows = []
+    while True:
+        p = pk[pos][1]
+        pos += 1
+        if p[:1] == b"\xfe" and len(p) < 9:
+            break
+        row = []
+        if binary:
+            if p[0] != 0:
+                raise ValueError("binary row header")
+            nb = (ncols + 9) // 8
+            bitmap, j = p[1:1 + nb], 1 + nb
+            for c in range(ncols):
+                if bitmap[(c + 2) // 8] & (1 << ((c + 2) % 8)):
+                    row.append(None)
+                else:
+                    ln, j = _lenenc(p, j)
+                    row.append(p[j:j + ln]); j += ln
+        else:
+            j = 0
+            for c in range(ncols):
+                if p[j] == 0xFB:
+                    row.append(None); j += 1
+                else:
+                    ln, j = _lenenc(p, j)
+                    row.append(p[j:j + ln]); j += ln
+        if j != len(p):
+            raise ValueError("row packet has trailing bytes")
+        rows.append(tuple(row))
+    if pos != len(pk):
+        raise ValueError("packets after the terminator")
+    return rows
+
+
+def wire_strings(rng, ctx):
+    sizes = [0, 1, 250, 251, 300, 32000, 32763, 32764, 32768, 40000, 65535, 65536, 70000]
+    shapes = []
+    for big in sizes:
+        shapes.append([("a" * 3, "x" * big)])
+        shapes.append([("h", "t"), ("y" * big, None), ("z", "é" * (big // 2))])
+    if not ctx.quick:
+        for _ in range(40):
+            shapes.append([tuple(rng.choice([None, "q" * rng.choice(sizes)]) for _ in range(3)) for _ in range(rng.randint(1, 4))])
+    box = {}
+
+    class S(impl.ScriptSession):
+        async def handle_query(self, sql, attrs):
+            return box["result"]
+
+    for rows in shapes:
+        ncols = len(rows[0])
+        for typed in (True, False):
+            cols = [ResultColumn(f"c{i}", CT.VARCHAR) for i in range(ncols)] if typed else [f"c{i}" for i in range(ncols)]
+            if not typed and any(all(r[i] is None for r in rows) for i in range(ncols)):
+                continue
+            for binary in (False, True):
+                env = impl.Env(own_sleep=False)
+                try:
+                    box["result"] = (rows, cols)
+                    srv = impl.make_server(env, lambda: S(env, 0))
+                    c = impl.Conn(env, srv)
+                    env.settle(); c.take()
+                    c.feed(cl.frame(cl.handshake_response(user=b"u"), 1)); c.take()
+                    if binary:
+                        c.feed(cl.frame(bytes([cl.COM_STMT_PREPARE]) + b"SELECT 1", 0))
+                        sid = cl.split_raw(c.take())[0][1][1:5]
+                        c.feed(cl.frame(bytes([cl.COM_STMT_EXECUTE]) + sid + b"\x00" + (1).to_bytes(4, "little"), 0))
+                    else:
+                        c.feed(cl.frame(bytes([cl.COM_QUERY]) + b"SELECT 1", 0))
+                    raw = c.take()
+                    ctx.evals += 1
+                    want = [tuple(None if v is None else v.encode("utf8") for v in r) for r in rows]
+                    try:
+                        got = strict_rows(raw, binary)
+                    except (ValueError, IndexError) as e:
+                        return dict(kind="wire-result", protocol="binary" if binary else "text", typed_columns=typed,
+                                    cell_sizes=[[None if v is None else len(v.encode("utf8")) for v in r] for r in rows], problem=str(e)[:200])
+                    if got != want:
+                        return dict(kind="wire-result", protocol="binary" if binary else "text", typed_columns=typed,
+                                    cell_sizes=[[None if v is None else len(v.encode("utf8")) for v in r] for r in rows],
+                                    problem="decoded values differ from what the application returned")
+                finally:
+                    env.close()
+    return None
+
+
+
 def run(ctx: core.Ctx):
     rng = ctx.rng
     pr = core.check_proofs(ctx, "Props/C05", headers=[HEADER])
@@ -258,6 +373,12 @@ def run(ctx: core.Ctx):
         ctx.evals += 1
     finally:
         env.close()
+
+    # ---- end to end: string cells of every size class (below / at / above the 32 KiB write buffer, above 64 KiB) in both
+    #      protocols, decoded by a strict reference client (consecutive sequence ids, count, definitions, rows, terminator)
+    w = wire_strings(rng, ctx)
+    if w is not None:
+        witness = witness or w
 
     if witness is not None:
         core.report_violation(ctx, "a client does not decode the value the application returned", witness)
